@@ -13,12 +13,12 @@ func TestOne(t *testing.T) {
 	}
 	script := m == "" || m[0] == 's'
 	vm := len(m) > 2 && m[len(m)-2:] == "vm"
-	c := c29Case{Param: p, Script: script, VM: vm, Args: []string{a}}
-	w := getWorld()
+	c := c29Case{World: worldName(), Param: p, Script: script, VM: vm, Args: []string{a}}
+	w := getWorld(worldName())
 	T, _ := w.paramType(p)
 	deep := T != nil && alwaysStorable(T, 0)
 	l := w.ledger.Clone()
-	res := runFresh(l, source(p, script, deep), c.raw(), script, vm)
+	res := runFresh(l, w.source(p, script, deep), c.raw(), script, vm)
 	t.Logf("class=%s kind=%s logs=%v value=%v\nerr=%s", res.Class, res.Kind, res.Logs, res.Value, res.ErrString())
 	if res.Value != nil {
 		cl, d := roundTrip(res.Value)
